@@ -599,7 +599,7 @@ impl ZonedDateTime {
         // 5. Let today be isoDateTime.[[ISODate]].
         let today = iso.date;
         // 6. Let tomorrow be BalanceISODate(today.[[Year]], today.[[Month]], today.[[Day]] + 1).
-        let tomorrow = IsoDate::balance(today.year, today.month.into(), i32::from(today.day + 1));
+        let tomorrow = IsoDate::balance(today.year, today.month.into(), i32::from(today.day) + 1);
         // 7. Let todayNs be ? GetStartOfDay(timeZone, today).
         let today_ns = self.tz.get_start_of_day(&today, provider)?;
         // 8. Let tomorrowNs be ? GetStartOfDay(timeZone, tomorrow).
@@ -609,7 +609,7 @@ impl ZonedDateTime {
         // NOTE: The below should be safe as today_ns and tomorrow_ns should be at most 25 hours.
         // TODO: Tests for the below cast.
         // 10. Return 𝔽(TotalTimeDuration(diff, hour)).
-        Ok(diff.divide(60_000_000_000) as u8)
+        Ok(diff.divide(3_600_000_000_000) as u8)
     }
 }
 
